@@ -25,6 +25,27 @@ fn bin_exprs(src: &str) -> Vec<String> {
     let parse = oq3_syntax::SourceFile::parse(src);
     parse.syntax_node().descendants().filter(|n| n.kind() == oq3_syntax::SyntaxKind::BIN_EXPR).map(|n| n.text().to_string()).collect()
 }
+/// (syntax diagnostics, outcome of the full semantic analysis) for `src`
+fn sema_outcome(src: &'static str) -> (usize, Run) {
+    let nsyn = oq3_syntax::SourceFile::parse(src).errors().len() + lex_errors(src);
+    let (tx, rx) = mpsc::channel();
+    std::thread::spawn(move || {
+        let r = std::panic::catch_unwind(|| {
+            let res = oq3_semantics::syntax_to_semantics::parse_source_string(src, None);
+            res.semantic_errors().len()
+        });
+        let _ = tx.send(match r {
+            Ok(n) => Run::Returned { errors: n },
+            Err(e) => Run::Panicked(e.downcast_ref::<String>().cloned().or_else(|| e.downcast_ref::<&str>().map(|s| s.to_string())).unwrap_or_default()),
+        });
+    });
+    (nsyn, rx.recv_timeout(Duration::from_secs(5)).unwrap_or(Run::Hung))
+}
+/// a C03 witness: parses without any diagnostic, yet the analyser panics
+fn c03(src: &'static str) -> (bool, String) {
+    let (nsyn, r) = sema_outcome(src);
+    (nsyn == 0 && matches!(r, Run::Panicked(_)), format!("`{}`: {} syntax diagnostics, analysis -> {:?}", src, nsyn, r))
+}
 fn lex_errors(src: &str) -> usize { oq3_parser::LexedStr::new(src).errors().count() }
 
 
@@ -78,6 +99,23 @@ fn table() -> Vec<(&'static str, Check)> {
             }
             (err_nodes > 0 && errors == 0, format!("TopEntryPoint::Expr on `1 2`: {err_nodes} ERROR node(s), {errors} diagnostic(s)"))
         }),
+        ("C03-cmp-ord", || c03("bool b = 1 < 2;")),
+        ("C03-logic-op", || c03("bool a; bool b; a && b;")),
+        ("C03-compound-assign", || c03("int a; a += 1;")),
+        ("C03-unary-not", || c03("bool x; !x;")),
+        ("C03-neg-bool", || c03("-true;")),
+        ("C03-neg-timing", || c03("-3ns;")),
+        ("C03-designator-expr", || c03("int[2+3] x;")),
+        ("C03-designator-undeclared", || c03("int[n] x;")),
+        ("C03-designator-no-value", || c03("const int n; int[n] x;")),
+        ("C03-call-undeclared", || c03("f(1);")),
+        ("C03-redeclare-const", || c03("const int x = 1; const int x = 2;")),
+        ("C03-int-literal-overflow", || c03("340282366920938463463374607431768211456;")),
+        ("C03-array-expr", || c03("int x = [1, 2];")),
+        ("C03-io-array", || c03("input array[int, 3] x;")),
+        ("C03-array-literal", || c03("array[int, 2] a = {1, 2};")),
+        ("C03-block-expr", || c03("int x = {1};")),
+        ("C03-box-expr", || c03("box { };")),
         ("C20-const-eq", || {
             let r = promote_types(&Type::Int(Some(8), c(true)), &Type::Int(Some(8), c(false)));
             (r.is_const(), format!("promote_types(const int[8], int[8]) = {:?}", r))
